@@ -727,6 +727,9 @@ pub fn exec(plan: &WirePlan) -> RunOut {
             let s = w.step_req(req, &Chunking::Whole, "wire", &mut out);
             if b.big {
                 out.bump(&format!("probe.body_at_limit.{}", s.resp.class()));
+                if matches!(s.resp, crate::model::Resp::Refused(_) | crate::model::Resp::Error(_) | crate::model::Resp::Panic(_)) {
+                    out.violations.push(viol(&["C15", "C06"], "wire.body_within_limit_refused", format!("{} carries a body within the 100 MiB limit but was answered {}", b.label, s.resp.short())));
+                }
             }
             shape.add_str(s.resp.class());
             if trace.len() < 14 {
